@@ -201,6 +201,48 @@ theorem advertised_zero_and_max_finite (atol fa : K) (l : List K) (hfa : 0 ≤ f
   exact ⟨advertised_accepted_finite atol fa _ hfa 0 hs.2.1,
          advertised_accepted_finite atol fa _ hfa _ (listMax_spec _ hne).1⟩
 
+/-! ### degenerate ranges: `min_rate = max_rate`, a switched-off station (`max_rate = 0`) -/
+
+/-- `min_rate = max_rate = c` (continuous) / `deadband_end = max_rate = c`: the interval is the point `c` -/
+theorem valid_rate_point_range (atol fa c p : K) :
+    (validRate atol fa (.cont c (some c)) p = true ↔ |p - c| ≤ atol) ∧
+    (validRate atol fa (.deadband c (some c)) p = true ↔ |p| ≤ atol ∨ |p - c| ≤ atol) := by
+  have h : (c ≤ p + atol ∧ p - atol ≤ c) ↔ |p - c| ≤ atol := by
+    rw [abs_le]; constructor <;> rintro ⟨h1, h2⟩ <;> constructor <;> linarith
+  refine ⟨?_, ?_⟩
+  · simp only [validRate, leBound, Bool.and_eq_true, decide_eq_true_eq]; exact h
+  · simp only [validRate, leBound, isclose0, absK_eq_abs, Bool.or_eq_true, Bool.and_eq_true,
+      decide_eq_true_eq, sub_zero]; rw [h]
+
+/-- a finite list that holds nothing but zeros (`[]`, `[0]`, `[0, 0.0]`, of any length) is the list `[0]` -/
+theorem normalize_zeros (l : List K) (hl : ∀ y ∈ l, y = 0) : Evse.normalize l = [0] := by
+  obtain ⟨hs, h0, hm⟩ := normalize_spec l
+  have hall : ∀ y ∈ Evse.normalize l, y = 0 := fun y hy =>
+    ((hm y).mp hy).elim id (hl y)
+  match hn : Evse.normalize l, hs, h0, hall with
+  | [], _, h0, _ => simp at h0
+  | [x], _, _, hall => rw [hall x (by simp)]
+  | x :: y :: r, hs, _, hall =>
+    have hx := hall x (by simp); have hy := hall y (by simp)
+    have : x < y := (List.pairwise_cons.mp hs).1 y (by simp)
+    rw [hx, hy] at this; exact absurd this (lt_irrefl _)
+
+/-- a switched-off station (`max_rate = 0`; continuous, deadband with `deadband_end = 0`, finite list of
+    zeros / empty list): the advertised maximum is 0 (not infinity) and a pilot is accepted iff it is
+    within the tolerance of 0 -/
+theorem valid_rate_zero_range (atol fa p : K) (l : List K) (hl : ∀ y ∈ l, y = 0) :
+    (validRate atol fa (.cont 0 (some 0)) p = true ↔ |p| ≤ atol) ∧
+    (validRate atol fa (.deadband 0 (some 0)) p = true ↔ |p| ≤ atol) ∧
+    (validRate atol fa (.finite (Evse.normalize l)) p = true ↔ |p| ≤ fa) ∧
+    maxRate (.cont (0 : K) (some 0)) = some 0 ∧ maxRate (.deadband (0 : K) (some 0)) = some 0 ∧
+    maxRate (.finite (Evse.normalize l)) = some 0 ∧ minRate (.finite (Evse.normalize l)) = 0 := by
+  obtain ⟨h1, h2⟩ := valid_rate_point_range atol fa 0 p
+  rw [sub_zero] at h1 h2
+  refine ⟨h1, by rw [h2, or_self], ?_, rfl, rfl, ?_, ?_⟩
+  · rw [normalize_zeros l hl, finite_valid_iff]; simp
+  · rw [normalize_zeros l hl]; rfl
+  · rw [normalize_zeros l hl]; simp [minRate, firstPositive]
+
 /-! ### rejection leaves the state alone; occupied stations refuse a plug-in -/
 
 section
@@ -422,6 +464,13 @@ example : validRate (1/1000 : ℚ) (1/1000) (.cont 0 (some 32)) (32 + 1/1000) = 
 example : validRate (1/1000 : ℚ) (1/1000) (.cont 0 (some 32)) (32 + 2/1000) = false := by decide +kernel
 example : validRate (1/1000 : ℚ) (1/1000) (.deadband 6 (some 32)) 3 = false := by decide +kernel
 example : Evse.normalize ([16, 8, 8, 32] : List ℚ) = [0, 8, 16, 32] := by decide +kernel
+-- switched-off stations: 0 ± 1e-3 is taken, anything farther (the old default 16 A, 2e-3) is refused
+example : Evse.normalize ([] : List ℚ) = [0] ∧ Evse.normalize ([0, 0] : List ℚ) = [0] := by decide +kernel
+example : validRate (1/1000 : ℚ) (1/1000) (.cont 0 (some 0)) (1/1000) = true ∧
+    validRate (1/1000 : ℚ) (1/1000) (.cont 0 (some 0)) 16 = false ∧
+    validRate (1/1000 : ℚ) (1/1000) (.deadband 0 (some 0)) (2/1000) = false ∧
+    validRate (1/1000 : ℚ) (1/1000) (.finite (Evse.normalize [0, 0])) (-1/1000) = true ∧
+    validRate (1/1000 : ℚ) (1/1000) (.cont 8 (some 8)) (8 - 2/1000) = false := by decide +kernel
 
 /-- the scenario class of two same-class stations with equal min/max and different allowable sets
     (deadband ends 6 / 8 under one maximum; finite lists with the same smallest and largest step):
